@@ -36,8 +36,8 @@ RULE = ("Hypothesis draws (terminal layouts, which variables the device "
         "changed between cycles; distinct by (layout kinds, cycle count, "
         "fault pattern)")
 ASSUMPTIONS = [
-    "latencies stay below the 20 ms response time-out (late frames are C24's "
-    "and C12's subject)",
+    "latencies stay below the 20 ms response time-out; lost transmissions "
+    "are re-sent by the group after that time-out",
     "wrong working counters are in 0..3 x terminals (what a bus can produce), "
     "injected by adding to the counter the terminals produced",
     "ebpfcat.ebpfcat.monotonic is the virtual loop's clock",
@@ -70,9 +70,13 @@ def case_strategy(draw):
                                         st.integers(1, 3 * nt), max_size=2)
                         if draw(st.integers(0, 2)) == 0 else st.just({})),
         })
+    # cyclic transmissions that get lost on the way (the group re-sends after
+    # its 20 ms time-out)
+    lose = draw(st.lists(st.integers(2, ncyc + 1), max_size=2, unique=True)
+                if draw(st.integers(0, 2)) == 0 else st.just([]))
     return {"terminals": terms, "devices": [],
             "link": {"in": [ti, "rin", fi], "out": [to, "rout", fo]},
-            "cycles": cycles}
+            "cycles": cycles, "lose": sorted(lose)}
 
 
 def strategy(tier):
@@ -107,6 +111,7 @@ def run_case(case):
     async def go(loop):
         ebmod.monotonic = loop.time
         cyc = {"n": 0}
+        tx = {"n": 0}
 
         def on_frame(no, frame):
             idx, = struct.unpack_from("<I", frame, 4)
@@ -129,6 +134,9 @@ def run_case(case):
             idx, = struct.unpack_from("<I", frame, 4)
             if idx != 1000:
                 return {}
+            tx["n"] += 1
+            if tx["n"] - 1 in case.get("lose", ()):
+                return {"lose": True}
             k = cyc["n"]     # this frame will be cycle k
             w = cycles[min(k, ncyc)]["wkc"]
             return {"wkc": {int(a): b for a, b in w.items()}} if w else {}
@@ -182,6 +190,17 @@ def run_case(case):
                     f"{len(dev.seen)} updates")
     cyclic_frames = [(s, r) for s, r in rig.frames
                      if struct.unpack_from("<I", s, 4)[0] == 1000]
+    # a lost transmission is repeated unchanged after the time-out
+    sent = [f for f in rig.transport.sent
+            if struct.unpack_from("<I", f, 4)[0] == 1000]
+    for i in case.get("lose", ()):
+        if i + 1 < len(sent) and sent[i + 1] != sent[i]:
+            diff = [j for j in range(min(len(sent[i]), len(sent[i + 1])))
+                    if sent[i][j] != sent[i + 1][j]]
+            return fail(f"cyclic transmission {i} was lost; the frame sent "
+                        f"after the time-out differs from it at offsets "
+                        f"{diff[:8]} (outputs / working counters of the "
+                        f"re-sent frame)")
     if len(dev.seen) < 3:
         return fail(f"only {len(dev.seen)} updates in 4 s of virtual time "
                     f"({len(cyclic_frames)} cyclic frames)")
@@ -236,7 +255,9 @@ def run_case(case):
                 key=repr(([(t["use_fmmu"], len(t["in"]), len(t["out"]))
                            for t in case["terminals"]], len(dev.seen),
                           [bool(c["wkc"]) for c in cycles], fi, fo)),
-                classes=classes + (["wkc-fault"] if faults else []),
+                classes=classes + (["wkc-fault"] if faults else [])
+                + (["lost-transmission"] if any(
+                    i + 1 < len(sent) for i in case.get("lose", ())) else []),
                 summary={"updates": len(dev.seen),
                          "cyclic_frames": len(cyclic_frames),
                          "wkc_errors": dev.errors})
